@@ -117,6 +117,10 @@ Definition rq_pep440_clause (o : oper) (ws x : list N) : Prop :=
            (match v with Some c => lc c = 118 | None => True end) /\ (match e with Some y => wf_digits y = true | None => True end) /\
            wf_digits r0 = true /\ forallb wf_digits rs = true /\ x = r_body (BWild v e r0 rs))
     \/ (o = OArb /\ x <> [] /\ forallb arb_char x = true /\ rq_no_comma x = true) ).                              (* === text *)
+(* x <> [] in the last alternative cannot be dropped while wf_clause_grammar is an equivalence with rq_wf_clause, which demands a
+   non-empty text: "===" followed by blanks is ONE token ("===" \s* [^\s;)]* ), so with an empty text the blanks after the clause
+   would belong to it and rq_parse would not return the spelled clause text.  "a===" (accepted by code and model) is covered by
+   ReqCanonP.str_roundtrip_nogap and ReqClauseP.clause_in_requirement only. *)
 
 Definition spelling_of (q : pub_sp) (lo : option (list N * list (N * list N))) : spelling :=
   {| ws_l := []; vpre := q_v q; ep := q_ep q; rel0 := q_rel0 q; rels := q_rels q; spre := q_pre q; spost := q_post q; sdev := q_dev q;
